@@ -198,6 +198,12 @@ class Exec:
         if isinstance(t, ty.RefT) and isinstance(v, ty.ObjV):
             st.assume(z3.Or(v.ref == ty.NULL, z3.Select(st.alloc, v.ref)) if t.nullable
                       else z3.And(v.ref != ty.NULL, z3.Select(st.alloc, v.ref)))
+        elif isinstance(t, ty.SeqT) and isinstance(v, ty.SeqV):
+            st.assume(v.len >= 0)                       # python lists / arrays have non-negative length
+        elif t is ty.Mat and isinstance(v, ty.MatV):
+            st.assume(z3.And(v.rows >= 0, v.cols >= 0))
+        elif isinstance(t, ty.MapT) and isinstance(v, ty.MapV) and v.keys is not None:
+            st.assume(v.keys.len >= 0)
 
     def to_storable(self, v):
         if isinstance(v, PyList):
@@ -303,8 +309,10 @@ class Exec:
             self.stats["forks"] += 1
             st2 = st.fork()
             st.assume(cond)
+            st.decisions.append(cond)
             st.trace.append(f"{label}=T")
             st2.assume(z3.Not(cond))
+            st2.decisions.append(z3.Not(cond))
             st2.trace.append(f"{label}=F")
             return [(True, st), (False, st2)]
         if t_ok:
@@ -911,7 +919,7 @@ class Exec:
                     a = self.heap_arr(st, k, srt)
                     na = z3.Const(ty.fresh_name(f"H:{k}"), z3.ArraySort(ty.RefSort, srt))
                     r = z3.Const(ty.fresh_name("fr"), ty.RefSort)
-                    st.assume(z3.ForAll([r], z3.Implies(z3.Select(entry_alloc, r), z3.Select(na, r) == z3.Select(a, r)),
+                    st.assume(ty.FA([r], z3.Implies(z3.Select(entry_alloc, r), z3.Select(na, r) == z3.Select(a, r)),
                                         patterns=[z3.Select(na, r)]))
                     st.heap[k] = na
                 continue
@@ -958,7 +966,7 @@ class Exec:
             h.alloc = z3.Const(ty.fresh_name("alloc"), z3.ArraySort(ty.RefSort, z3.BoolSort()))
             # allocation only grows
             r = z3.Const(ty.fresh_name("r"), ty.RefSort)
-            h.assume(z3.ForAll([r], z3.Implies(z3.Select(st.alloc, r), z3.Select(h.alloc, r))))
+            h.assume(ty.FA([r], z3.Implies(z3.Select(st.alloc, r), z3.Select(h.alloc, r))))
         if "warnings" in spec.modifies:
             wc = z3.Int(ty.fresh_name("warns"))
             h.assume(wc >= ty.to_z3num(st.warn_count))
@@ -1647,7 +1655,7 @@ class Exec:
                 old_alloc = st.alloc
                 st.alloc = z3.Const(ty.fresh_name("alloc"), z3.ArraySort(ty.RefSort, z3.BoolSort()))
                 r = z3.Const(ty.fresh_name("r"), ty.RefSort)
-                st.assume(z3.ForAll([r], z3.Implies(z3.Select(old_alloc, r), z3.Select(st.alloc, r))))
+                st.assume(ty.FA([r], z3.Implies(z3.Select(old_alloc, r), z3.Select(st.alloc, r))))
                 continue
             cls, fname = fld.split(".", 1)
             fi = self.field_info(cls, fname)
@@ -1670,14 +1678,18 @@ class Exec:
                     # only objects allocated by the callee may differ
                     na = z3.Const(ty.fresh_name(f"H:{k}"), z3.ArraySort(ty.RefSort, srt))
                     r = z3.Const(ty.fresh_name("fr"), ty.RefSort)
-                    st.assume(z3.ForAll([r], z3.Implies(z3.Select(pre_alloc, r), z3.Select(na, r) == z3.Select(a, r)),
+                    st.assume(ty.FA([r], z3.Implies(z3.Select(pre_alloc, r), z3.Select(na, r) == z3.Select(a, r)),
                                         patterns=[z3.Select(na, r)]))
                     st.heap[k] = na
                 else:
                     for r in refs:
                         if r is None:
                             continue
-                        a = z3.Store(a, r.ref, z3.Const(ty.fresh_name(f"hv:{k}"), srt))
+                        if isinstance(r, tuple):          # (object, condition): modified only if the condition holds
+                            r, cnd = r
+                            a = z3.Store(a, r.ref, z3.If(cnd, z3.Const(ty.fresh_name(f"hv:{k}"), srt), z3.Select(a, r.ref)))
+                        else:
+                            a = z3.Store(a, r.ref, z3.Const(ty.fresh_name(f"hv:{k}"), srt))
                     st.heap[k] = a
 
     # =================================================================== verifying one function
@@ -1707,6 +1719,8 @@ class Exec:
                 st.assume(z3.Select(st.alloc, v.ref))
                 if not t.nullable:
                     st.assume(v.ref != ty.NULL)
+            else:
+                self.assume_wf(st, t, v)
             args[n] = v
         # defaults for the rest
         try:
@@ -1837,7 +1851,9 @@ class Exec:
             r = z3.Const(ty.fresh_name("fr"), ty.RefSort)
             cond = [z3.Select(old.alloc, r)]
             for x in (refs or []):
-                if x is not None:
+                if isinstance(x, tuple):
+                    cond.append(z3.Not(z3.And(x[1], r == x[0].ref)))
+                elif x is not None:
                     cond.append(r != x.ref)
             self.oblige(new, f"frame/{k}/{pid}", z3.Implies(z3.And(*cond), z3.Select(a, r) == z3.Select(a0, r)), node)
         if "warnings" not in allowed:
